@@ -628,6 +628,27 @@ theorem backup_members_le_expectimax (m : Model) (hv : Valid m) (τ : Rat) (hsep
           exact qOf_mono m hv hγ _ _ ih b hb (by have := hv.hA; omega)
       _ = expectimax m (t+1) b := rfl
 
+
+/-- **stepwise_exact**: ANY solver whose list at every timestep has the same envelope (over beliefs) as the full backup of its own
+    previous list computes the expectimax value at every belief.  With `witness_points_exact` this reduces the correctness of
+    Witness and LinearSupport to one statement about their search (“no belief is left where the full backup is better”), which
+    is the part that is not modelled and only tested (and where LinearSupport's defect lives). -/
+theorem stepwise_exact (m : Model) (hv : Valid m) (τ : Rat) (hsep : Sep m τ) (hγ : 0 ≤ m.γ)
+    (L : Nat → List Vec) (hne : ∀ t, L t ≠ [])
+    (h0 : ∀ b, NonNeg m.S b → env m.S (L 0) b = 0)
+    (hstep : ∀ t b, NonNeg m.S b → env m.S (L (t+1)) b = env m.S (backupAll m τ (L t)) b) :
+    ∀ (t : Nat) (b : Vec), NonNeg m.S b → env m.S (L t) b = expectimax m t b := by
+  intro t
+  induction t with
+  | zero => intro b hb; simpa [expectimax] using h0 b hb
+  | succ t ih =>
+    intro b hb
+    rw [hstep t b hb, env_backupAll m hv τ hsep hγ _ (hne t) b hb]
+    simp only [expectimax]
+    apply maxTo_congr
+    intro a ha
+    exact qOf_congr m hv _ _ ih b hb (by have := hv.hA; omega)
+
 /-! ## Incremental Pruning's interleaving -/
 
 /-- a pruner that keeps the upper envelope over non-negative points (what `Pruner` is required to do; C12's subject) -/
